@@ -414,6 +414,9 @@ func (g *jgen) genValue(s *JS, o *oracle) string {
 		}
 		return "P(" + g.genValue(s.Inner, o) + ")"
 	case "arr":
+		if g.rng.Intn(7) == 0 {
+			return "Nil[]" // a nil slice: must encode as [] (null only where the schema is nullable)
+		}
 		n := g.rng.Intn(4)
 		var parts []string
 		for i := 0; i < n; i++ {
